@@ -17,6 +17,36 @@ CLAIMED = {
    note=TRUST_MIR + "num-rational's trunc/floor/ceil/round/denom behave as documented. Not decided: nothing of the "
         "integer-rounding clause; see DESIGN.md C10 for the remaining rules.",
    design="4/C10"),
+ "C12": dict(
+   technique="who-writes / who-calls rules, exact character-partition abstract interpretation of the lexer, must-pass-through on the parser",
+   text="Decides the structural facts that make lexing and parsing lossless: Lexer.pos is written only by step() by the "
+        "UTF-8 length of the character at pos; every token's length is pos - start; an abstract run of Lexer::next for "
+        "every atom of the exact character partition (intervals no comparison of the lexer distinguishes) shows every "
+        "call returns a non-empty token or None only at end of input and never panics; every loop of the lexer steps; "
+        "Builder::token is fed only by Parser::bump with the head token; every lexed token is queued; root() leaves its "
+        "loop only at EOF after flushing pending blanks.",
+   note=TRUST_MIR + "syntree::Builder builds the tree it is told to; char::is_whitespace is Unicode White_Space.",
+   design="4/C12"),
+ "C14": dict(
+   technique="call-site constant rule, dominance, constant agreement between schema, tokenizer registration and field use",
+   text="Decides the clauses of schedule independence that are visible in the code: the only IndexWriter is created with "
+        "exactly one indexing thread; the n-gram tokenizer is registered under the schema's tokenizer name before any use "
+        "on every path; both index-creation paths use build_schema(); indexing and querying use the same field; the "
+        "insertion loop iterates the embedded assets and skips only the sources file. Not decided: tantivy's internal "
+        "determinism given one thread (trusted).",
+   note=TRUST_MIR + "tantivy assigns doc ids in insertion order with one thread and breaks score ties by doc address; "
+        "rust-embed iterates assets in a fixed order.",
+   design="4/C14"),
+ "C15": dict(
+   technique="dominance / must-pass-through over MIR CFG, who-may-write census, slice of the rebuild flag",
+   text="Decides the ordering and ownership facts recovery relies on, on every control-flow path: the marker is written "
+        "only after commit and reload succeeded and only when not in memory; only write_meta creates it and only "
+        "open_inner calls that; the marker is removed before the index directory is destroyed or recreated; a damaged "
+        "marker cannot abort start-up; (false, index) is returned only behind version equality and a successful open; "
+        "the rebuild flag is hash mismatch OR index_rebuild; in-memory sessions reach no file-system mutation.",
+   note=TRUST_MIR + "tantivy's commit is atomic. Crash points are covered as 'between any two effects': the rules are "
+        "orderings that hold on every path, not sampled crash points.",
+   design="4/C15"),
 }
 
 NA = {
